@@ -3,7 +3,7 @@ from ..driver import Plan, H
 
 MOD = "query::executor::operator::verif_kani_c01"
 ATTR = ("#[kani::unwind(6)]\n#[kani::stub(core::fmt::write, vk_fmt_write)]\n"
-        "#[kani::stub(std::fmt::format, vk_fmt_format)]\n")
+        "#[kani::stub(std::fmt::format, vk_fmt_format)]\n#[kani::stub(regex::Regex::new, vk_regex_new)]\n")
 TAGS = {0: "Boolean", 1: "Integer", 2: "Float", 3: "String", 4: "Null", 5: "DateTime"}
 
 
@@ -16,6 +16,10 @@ def plan(tier):
         gen.append("vk_proof! {\n" + ATTR + "fn %s() { %s }\n}\n" % (fn, " ".join(calls)))
         p.add(MOD, H(fn, shape, fam))
 
+    gen.append("vk_proof! {\n" + ATTR + "fn c01_probe() { let a: bool = kani::any(); let b: bool = kani::any(); "
+               "let r = eval_binary_op(&BinaryOp::And, Value::Property(PropertyValue::Boolean(a)), Value::Property(PropertyValue::Boolean(b))); "
+               "assert!(tv(&r) == (a && b) as u8); vk_cover!(true, \"reach\"); std::mem::forget(r); }\n}\n")
+    p.add(MOD, H("c01_probe", {}, "probe"))
     logic_pairs = [(a, b) for a in (0, 4) for b in (0, 4)]
     emit("c01_logic", ["logic(%d, %d);" % t for t in logic_pairs],
          {"operands": [[TAGS[a], TAGS[b]] for a, b in logic_pairs], "ops": "AND OR XOR NOT IS NULL IS NOT NULL"}, "logic")
